@@ -365,6 +365,7 @@ pub fn check_reading_modes(index: &Index, fname: &str, seg: usize, dump: &FieldD
     while stream.advance() {
         ti_list.push(stream.value().clone());
     }
+    let mut prev: Option<(tantivy::postings::TermInfo, IndexRecordOption)> = None;
     for (k, ((term, list), ti)) in dump.terms.iter().zip(ti_list.iter()).enumerate() {
         if list.len() > 3000 && k % 7 != 0 {
             continue;
@@ -400,6 +401,53 @@ pub fn check_reading_modes(index: &Index, fname: &str, seg: usize, dump: &FieldD
         if opt.has_freq() && freqs != list.iter().map(|x| x.1).collect::<Vec<_>>() {
             return Err(("block_postings_freqs_differ".into(), format!("field {fname} term {:?}: block-wise term frequencies differ", hexs(term))));
         }
+        // a block cursor opened on the previous term and re-targeted (not advanced / advanced by one block /
+        // drained) reads this term's list exactly
+        if let Some((pti, popt)) = &prev {
+            if *popt == opt {
+                for state in 0..3u8 {
+                    let mut cur = inv.read_block_postings_from_terminfo(pti, opt).map_err(|e| ("machinery".to_string(), format!("{e:?}")))?;
+                    match state {
+                        1 => {
+                            cur.advance();
+                        }
+                        2 => {
+                            let mut g = 0;
+                            while cur.block_len() > 0 && g < 1_000_000 {
+                                cur.advance();
+                                g += 1;
+                            }
+                        }
+                        _ => {}
+                    }
+                    inv.reset_block_postings_from_terminfo(ti, &mut cur).map_err(|e| ("machinery".to_string(), format!("{e:?}")))?;
+                    st.count("block_cursor_reuses");
+                    let mut rdocs = vec![];
+                    let mut rfreqs = vec![];
+                    let mut g = 0;
+                    loop {
+                        let n = cur.block_len();
+                        if n == 0 {
+                            break;
+                        }
+                        rdocs.extend_from_slice(&cur.docs()[..n]);
+                        if opt.has_freq() {
+                            rfreqs.extend_from_slice(&cur.freqs()[..n]);
+                        }
+                        cur.advance();
+                        g += 1;
+                        if g > 1_000_000 {
+                            return Err(("block_postings_do_not_terminate".into(), format!("field {fname} term {:?} (re-targeted cursor)", hexs(term))));
+                        }
+                    }
+                    if rdocs != want_docs || (opt.has_freq() && rfreqs != list.iter().map(|x| x.1).collect::<Vec<_>>()) {
+                        let first = rdocs.iter().zip(want_docs.iter()).position(|(a, b)| a != b);
+                        return Err(("block_postings_differ_after_reset".into(), format!("field {fname} term {:?}: a block cursor of the previous term (state {state}: 0 fresh, 1 advanced one block, 2 drained) re-targeted with reset_block_postings_from_terminfo yields {} docs (first difference at {first:?}: {:?} vs {:?}), the list has {}", hexs(term), rdocs.len(), first.map(|i| rdocs[i]), first.map(|i| want_docs[i]), want_docs.len())));
+                    }
+                }
+            }
+        }
+        prev = Some((ti.clone(), opt));
         // seeks: to every element, element - 1 and element + 1 (bounded for long lists)
         let idxs: Vec<usize> = if list.len() <= 600 { (0..list.len()).collect() } else { (0..list.len()).filter(|i| i % 128 < 2 || i % 128 > 125 || i % 97 == 0).collect() };
         for &i in &idxs {
@@ -631,7 +679,15 @@ fn long_term_docs() -> Vec<MDoc> {
 
 pub fn replay(case: &Value) -> Vec<Violation> {
     quiet_panics();
-    let Ok(c) = serde_json::from_value::<Case>(case.clone()) else { return vec![] };
+    let c = if let Some(i) = case["case_index"].as_u64() {
+        match all_cases(case["thorough"].as_bool().unwrap_or(false)).into_iter().nth(i as usize) {
+            Some(c) => c,
+            None => return vec![],
+        }
+    } else {
+        let Ok(c) = serde_json::from_value::<Case>(case.clone()) else { return vec![] };
+        c
+    };
     let mut st = Stats::default();
     match catch_unwind(AssertUnwindSafe(|| check_case(&c, &mut st))) {
         Ok(None) => vec![],
@@ -640,10 +696,8 @@ pub fn replay(case: &Value) -> Vec<Violation> {
     }
 }
 
-pub fn run(ctx: &Ctx) -> Report {
-    quiet_panics();
-    let mut rep = Report::new("model_checking");
-    let thorough = ctx.tier.is_thorough();
+/// the (deterministic) case list of a tier, big cases first
+pub fn all_cases(thorough: bool) -> Vec<Case> {
     let mut cases: Vec<Case> = vec![];
     let texts = tiny_texts();
     let cfgs: Vec<TextCfg> = {
@@ -726,6 +780,14 @@ pub fn run(ctx: &Ctx) -> Report {
     }
     // big cases first (better load balancing)
     cases.sort_by_key(|c| std::cmp::Reverse(c.docs.len()));
+    cases
+}
+
+pub fn run(ctx: &Ctx) -> Report {
+    quiet_panics();
+    let mut rep = Report::new("model_checking");
+    let thorough = ctx.tier.is_thorough();
+    let cases = all_cases(thorough);
     let (st, done) = par_for(ctx, cases.len(), |i, st| {
         let c = &cases[i];
         st.eval();
@@ -746,7 +808,7 @@ pub fn run(ctx: &Ctx) -> Report {
             Err(e) => ("index_panic".to_string(), format!("{} [{}]", panic_message(e), last_panic())),
         };
         let small = c.docs.len() <= 50;
-        let casej = if small { serde_json::to_value(c).unwrap() } else { json!({"note":"large structured case","ndocs":c.docs.len(),"cfg":c.cfg}) };
+        let casej = if small { serde_json::to_value(c).unwrap() } else { json!({"note":"large structured case: regenerated from the tier's case list","case_index":i,"thorough":thorough,"ndocs":c.docs.len(),"cfg":c.cfg}) };
         st.violation(Violation::new(&rule, format!("cfg {:?} {} docs segments {:?} merge {}: {what}", c.cfg, c.docs.len(), c.segments, c.merge), casej));
     });
     rep.set("exhaustive", done == cases.len());
